@@ -34,6 +34,11 @@ def gen(rng, tier):
             cases.append(Case("shahist %s I %s F" % (t, " ".join("U:" + hexs(p) for p in parts)),
                               "%s incremental first%%B=%d n%%B=%d" % (t, len(parts[0]) % b, n % b), True,
                               spec="spec.cat %s %s" % (t, hexs(m))))
+        # messages whose DIGEST has a special value (trailing / leading zero byte, 0xFF, newline, two zero bytes): every entry point, incl. the string forms
+        for name, pred in DIGEST_PREDS:
+            m = mine_message(rng, t, pred)
+            if m is not None:
+                cases.append(Case("sha %s %s" % (t, hexs(m)), "%s digest-%s" % (t, name), True, spec="spec.sha %s %s" % (t, hexs(m))))
         # the context as an object: copies, self-assignment, assignment onto a used context, save / restore
         for a_len in [1, b - 9, b, b + 1, rng.randrange(0, 3 * b)]:
             a = contents(rng, a_len, "rand"); bb = contents(rng, rng.choice([0, 1, 9, b]), "rand"); junk = contents(rng, rng.choice([1, b + 3]), "rand")
@@ -63,9 +68,11 @@ def extra(ctx):
     out = []
     for t, r in zip(HASHES, res):
         if r == "agree": continue
-        h = hashlib.new(t); chunk = bytes(1 << 24); left = n
+        head = bytes((0x11 + i) & 255 for i in range(41)); tail = bytes((0xA5 ^ i) & 255 for i in range(41))[::-1]
+        h = hashlib.new(t); h.update(head); chunk = bytes(1 << 24); left = n - 82
         while left > 0:
             k = min(left, len(chunk)); h.update(chunk[:k]); left -= k
+        h.update(tail)
         out.append(("huge", "a single update of %d zero bytes: entry points disagree (%s); FIPS digest (hashlib) is %s" % (n, r[:400], h.hexdigest()),
                     dict(key="shahuge %s" % t, cases=[dict(case="shahuge %s %d 1" % (t, n))], implementation=r, spec="agree " + h.hexdigest())))
     return out
